@@ -7,8 +7,8 @@ KINDS = ("pos",)
 
 def plan(tier):
     if tier == "quick":
-        return [("layout", 5), ("altspell", 5)]
-    return [("layout", 7), ("altspell", 6)]
+        return [("layout", 5), ("altspell", 5), ("quotes", 5)]
+    return [("layout", 7), ("altspell", 6), ("quotes", 6)]
 
 
 def run(tier, seed):
